@@ -164,6 +164,9 @@ class UnitDomain:
     def truth(self, c):
         return None
 
+    def unknown_cond(self):
+        return UVal({}, None)
+
     def fold(self, v, hint):
         return v
 
